@@ -22,16 +22,19 @@ CLAIMED = {
         text='For segment/ray x segment/ray (all four operand typings), segment/ray x plane, plane x plane and plane x sphere the '
              'translated routines are proved sound (result on both operands, parameters in range), complete (every transversal common '
              'point with admissible parameters is returned; d<>0) and symmetric under operand swap, for all inputs; the isclose guard of '
-             'the segment variant is proved never to reject in exact arithmetic. Arc, polygon/polyline, face, polyface and arc/plane '
-             'routines are searched against exact-rational configuration analysis.',
+             'the segment variant is proved never to reject in exact arithmetic; for line x sphere the generated routine is proved to solve '
+             'the exact quadratic and both returned points to lie on the sphere and the line. Arc, polygon/polyline, face (ray hits; plane cuts '
+             'of holed and concave faces against exactly sorted and paired crossings), polyface (also L/U prisms whose faces share normals) '
+             'and arc/plane routines are searched against exact-rational configuration analysis.',
         note='Trusted: Coq kernel, py2coq, harness. Ideal (exact rational) semantics of floats; sqrt pointwise hypothesis in the sphere '
              'theorem. Composite routines (Polygon2D/Face3D/Polyface3D/Arc) are validated, not proved.',
         technique=T_Q),
     'C12': dict(
         text='closest_point on segment / ray / line (2D and 3D) and on a plane: proved for every object and query that the result lies '
              'on the object (admissible parameter) and that no admissible point is closer (squared distance), plus distance zero for '
-             'queries on the object. Arc, polygon, segment-segment, plane-line and pole_of_inaccessibility are searched against exact '
-             'clamped projections, 200-400 samples and an independent branch-and-bound search (1e-3) for the pole.',
+             'queries on the object; the generated segment/plane routine is proved to return the segment point of least |height| over the '
+             'plane. Arc, polygon, segment-segment and pole_of_inaccessibility (also asked repeatedly on one outline with and without holes) '
+             'are searched against exact clamped projections, 200-400 samples and an independent branch-and-bound search (1e-3) for the pole.',
         note='Trusted: Coq kernel, py2coq, harness. Squared-distance form (sqrt monotone). Lipschitz continuity and the polylabel '
              'bound are validated only.',
         technique=T_Q),
